@@ -380,7 +380,7 @@ func AckGoroutineStopsOnError(c *core.Ctx, rule string) {
 					continue
 				}
 				for si := range b.Succs {
-					if cfgq.EdgeEstablishes(b, si, func(f cfgq.Fact) bool {
+					if g.Establishes(b, si, func(f cfgq.Fact) bool {
 						return pat.Expr("_err != nil").Match(info, f.Expr, nil) != nil && f.Val || pat.Expr("_err == nil").Match(info, f.Expr, nil) != nil && !f.Val
 					}) && (b == p.B || reachable(g, p, b)) && containsOrFollows(p, b) {
 						errEdgeFrom, okEdge = b, si
@@ -522,23 +522,35 @@ func CheckpointHsetsSameKey(c *core.Ctx, rule string) {
 	if n < 3 {
 		c.Undecidedf(rule, "sendFunc/hsets", fn.Decl.Pos(), "expected three checkpoint HSETs, found %d", n)
 	}
-	// and the loader is called with the same name
-	if sy := c.FuncOpt(dbSync, "DbSyncer", "Sync"); sy != nil {
-		si := sy.Pkg.TypesInfo
-		okL := false
-		ast.Inspect(sy.Decl.Body, func(nd ast.Node) bool {
-			if call, ok := nd.(*ast.CallExpr); ok {
-				if f := core.CalleeFunc(si, call); f != nil && f.Name() == "LoadCheckpoint" {
-					for _, a := range call.Args {
-						if pat.Expr("_ds.checkpointName").Match(si, a, nil) != nil {
-							okL = true
+	// and the loader is called with the same name (anywhere in the package: Sync or a helper of it)
+	if pk := c.Pkg(dbSync); pk != nil {
+		si := pk.TypesInfo
+		calls, okL := 0, false
+		var pos token.Pos
+		for _, f := range pk.Syntax {
+			if core.IsTestFile(c.Fset, f) {
+				continue
+			}
+			ast.Inspect(f, func(nd ast.Node) bool {
+				if call, ok := nd.(*ast.CallExpr); ok {
+					if fo := core.CalleeFunc(si, call); fo != nil && fo.Name() == "LoadCheckpoint" {
+						calls++
+						pos = call.Pos()
+						for _, a := range call.Args {
+							if pat.Expr("_ds.checkpointName").Match(si, a, nil) != nil {
+								okL = true
+							}
 						}
 					}
 				}
-			}
-			return true
-		})
-		c.Check(rule, "Sync/loads-same-key", sy.Decl.Pos(), okL, "LoadCheckpoint is called with ds.checkpointName, the hash the sender writes")
+				return true
+			})
+		}
+		if calls == 0 {
+			c.Undecidedf(rule, "Sync/loads-same-key", token.NoPos, "no call of checkpoint.LoadCheckpoint in package dbSync")
+		} else {
+			c.Check(rule, "Sync/loads-same-key", pos, okL, "LoadCheckpoint is called with ds.checkpointName, the hash the sender writes")
+		}
 	}
 }
 
@@ -579,7 +591,36 @@ func KeyFileScannerLoop(c *core.Ctx, rule string) {
 		return true
 	})
 	if loop == nil {
-		c.Undecidedf(rule, "ScanKey/loop", fn.Decl.Pos(), "no loop whose condition calls bufio.Scanner.Scan()")
+		// alternative form: the room test is the loop condition and Scan() is tested first
+		// thing in the body with a break: `for len(keys) < N { if !s.Scan() { break }; ... }`
+		var alt *ast.ForStmt
+		ast.Inspect(fn.Decl.Body, func(nd ast.Node) bool {
+			f, ok := nd.(*ast.ForStmt)
+			if !ok || alt != nil || len(f.Body.List) == 0 {
+				return true
+			}
+			if ifs, ok := f.Body.List[0].(*ast.IfStmt); ok {
+				if u, ok := ast.Unparen(ifs.Cond).(*ast.UnaryExpr); ok && u.Op == token.NOT && isScan(u.X) && len(ifs.Body.List) == 1 {
+					if br, ok := ifs.Body.List[0].(*ast.BranchStmt); ok && br.Tok == token.BREAK {
+						alt = f
+					}
+				}
+			}
+			return true
+		})
+		if alt == nil {
+			c.Undecidedf(rule, "ScanKey/loop", fn.Decl.Pos(), "no loop whose condition calls bufio.Scanner.Scan()")
+			return
+		}
+		c.Okf(rule, "ScanKey/scan-evaluated-last", alt.Pos(), "Scan() is called only after the room test of the loop condition held")
+		app, _ := pat.Stmt("_keys = append(_keys, _s.Text())").Find(info, alt.Body, nil)
+		top := false
+		for _, s := range alt.Body.List {
+			if ast.Node(s) == app {
+				top = true
+			}
+		}
+		c.Check(rule, "ScanKey/every-line-stored", alt.Pos(), app != nil && top, "every line consumed by Scan() is appended to the page unconditionally")
 		return
 	}
 	// conjuncts in evaluation order
@@ -837,7 +878,16 @@ func FooterRejectsEveryMismatch(c *core.Ctx, rule string) {
 		if pat.Expr("_a != _b").Match(info, cc, bb) != nil {
 			return s == 1
 		}
-		for _, f := range cfgq.Facts(cond, s == 0) {
+		for _, f := range g.EdgeFacts(blk, s) {
+			// a same-package predicate `func eq(x, y T) bool { return x == y }` applied to (a, b)
+			if call, ok := ast.Unparen(f.Expr).(*ast.CallExpr); ok && len(call.Args) == 2 {
+				if op, okc := cmpHelper(c, info, call); okc {
+					same := pat.Same(info, call.Args[0], a) && pat.Same(info, call.Args[1], b2) || pat.Same(info, call.Args[0], b2) && pat.Same(info, call.Args[1], a)
+					if same && (op == token.EQL && f.Val || op == token.NEQ && !f.Val) {
+						return true
+					}
+				}
+			}
 			if pat.Expr("_a == _b").Match(info, f.Expr, bb) != nil && f.Val || pat.Expr("_a != _b").Match(info, f.Expr, bb) != nil && !f.Val {
 				return true
 			}
@@ -853,6 +903,63 @@ func FooterRejectsEveryMismatch(c *core.Ctx, rule string) {
 		}
 		return cfgq.ClassifyReturn(info, fn.Decl.Body, blk.Nodes[len(blk.Nodes)-1].(*ast.ReturnStmt)) == cfgq.RetNilErr
 	}})
+	if w != nil {
+		// is there any comparison of the two values in Footer at all? if they are handed to
+		// something this rule cannot follow, it does not accuse
+		seen := false
+		ast.Inspect(fn.Decl.Body, func(n ast.Node) bool {
+			switch x := n.(type) {
+			case *ast.BinaryExpr:
+				if pat.Expr("_a == _b").Match(info, x, bb) != nil || pat.Expr("_a != _b").Match(info, x, bb) != nil {
+					seen = true
+				}
+			case *ast.CallExpr:
+				if _, ok := cmpHelper(c, info, x); ok {
+					seen = true
+				}
+			}
+			return true
+		})
+		if !seen {
+			c.Undecidedf(rule, "Footer/success-only-when-equal", fn.Decl.Pos(), "the computed and the stored CRC are not compared in Footer itself or through a recognisable predicate")
+			return
+		}
+	}
 	c.Check(rule, "Footer/success-only-when-equal", fn.Decl.Pos(), w == nil,
 		"Footer can return success without having found the computed and the stored CRC-64 equal: an RDB whose data bytes were altered is accepted (e.g. whenever the stored checksum field is zero)", w...)
+}
+
+// cmpHelper recognises a call of a same-module function whose body is a single
+// `return p0 == p1` or `return p0 != p1` on its two parameters.
+func cmpHelper(c *core.Ctx, info *types.Info, call *ast.CallExpr) (token.Token, bool) {
+	f := core.CalleeFunc(info, call)
+	if f == nil {
+		return 0, false
+	}
+	h := c.FnOf(f)
+	if h == nil || h.Decl.Body == nil || len(h.Decl.Body.List) != 1 {
+		return 0, false
+	}
+	ret, ok := h.Decl.Body.List[0].(*ast.ReturnStmt)
+	if !ok || len(ret.Results) != 1 {
+		return 0, false
+	}
+	be, ok := ast.Unparen(ret.Results[0]).(*ast.BinaryExpr)
+	if !ok || be.Op != token.EQL && be.Op != token.NEQ {
+		return 0, false
+	}
+	var ps []types.Object
+	for _, fl := range h.Decl.Type.Params.List {
+		for _, n := range fl.Names {
+			ps = append(ps, h.Pkg.TypesInfo.Defs[n])
+		}
+	}
+	if len(ps) != 2 {
+		return 0, false
+	}
+	x, y := core.ObjOf(h.Pkg.TypesInfo, be.X), core.ObjOf(h.Pkg.TypesInfo, be.Y)
+	if x == ps[0] && y == ps[1] || x == ps[1] && y == ps[0] {
+		return be.Op, true
+	}
+	return 0, false
 }
